@@ -11,6 +11,7 @@ import Falcon.Model.RingZ
 import Falcon.Model.KeygenSkel
 import Falcon.Model.SignSkel
 import Falcon.Model.FftFlt
+import Falcon.Model.FfSampling
 import Falcon.Spec.RefFormat
 import Falcon.Spec.Codec
 /- dispatch of one line-protocol op to the model -/
@@ -170,6 +171,12 @@ def execOp (chk : Bool) (tok : List String) : String :=
       renderRes (fun o => match o with
         | none => "Exhausted"
         | some (f, g) => renderInts f ++ " " ++ renderInts g) (KeygenSkel.firstCandidate chk (parseNat n) sd)
+  | ["tree_leaves", n, r0, r1, r2, r3] =>
+      let b0 := [parseInts r0, parseInts r1, parseInts r2, parseInts r3]
+      ",".intercalate ((FfS.normalizedLeaves (FfS.sigmaOf (parseNat n)) (FfS.treeOfB0 b0)).map fun x => toString x.toBits.toNat)
+  | ["ffs_targets", _, r0, r1, r2, r3, c, z] =>
+      let b0 := [parseInts r0, parseInts r1, parseInts r2, parseInts r3]
+      ",".intercalate ((FfS.signLeafTargets b0 (parseNats c) (parseInts z)).map fun x => toString x.toBits.toNat)
   | ["field_norm", f] => let f := parseInts f; renderInts (RingZ.fieldNorm f.length f)
   | ["lift_poly", f] => renderInts (RingZ.lift (parseInts f))
   | ["galois_adjoint", f] => renderInts (RingZ.adjoint (parseInts f))
